@@ -422,6 +422,7 @@ def _classify_interstorms(cursor, data_interval, rising_jump_threshold_mm_h):
     ghost(after="epoch, zeta_mm, is_raining = ", let="g_zeta", do=lambda: zeta_mm)
     ghost(after="is_raining = is_raining.astype(bool)", let="g_rain", do=lambda: is_raining)
     ensures(not db_sealed())
+    ensures(db_rows("storm") == db_rows_before("storm"))
     ensures(len(g_epoch) >= 1 and len(g_zeta) == len(g_epoch) and len(g_rain) == len(g_epoch))
     ensures(len(db_rows("grid_time_flags")) == len(db_rows_before("grid_time_flags")) + len(g_epoch))
     ensures(forall(0, len(g_epoch), lambda i:
@@ -466,8 +467,107 @@ def _classify_interstorms(cursor, data_interval, rising_jump_threshold_mm_h):
     ensures(len(g_inter) == len(g_epoch) and forall(0, len(g_epoch), lambda q:
             g_inter[q] == is_inter(g_epoch, g_zeta, g_rain, rising_jump_threshold_mm_h, q)))
     loop(0, types={"g_a": "list[int]", "g_b": "list[int]"}, inv=lambda it: not db_sealed()
+         and db_rows("storm") == db_rows_before("storm")
          and db_rows("grid_time_flags") == g_flags
          and len(g_a) == len(g_b) and len(db_rows("zeta_interval")) == len(db_rows_before("zeta_interval")) + len(g_a)
          and forall(0, len(g_a), lambda k: interstorm_row(
              db_rows("zeta_interval")[len(db_rows_before("zeta_interval")) + k], epoch, interval_mask, g_a[k], g_b[k])))
     ghost(after="masks = get_true_interval_masks(", let="g_flags", do=lambda: db_rows("grid_time_flags"))
+
+
+@contract("spowtd.classify:match_all_storms", db=True,
+          args={"cursor": "cursor", "data_interval": "int", "storm_rain_threshold_mm_h": "real",
+                "rising_jump_threshold_mm_h": "real"}, returns="none",
+          ghost_results={"g_epoch": "array[int]", "g_zeta": "array[real]", "g_rain": "array[real]", "g_step_h": "real",
+                         "g_ri": "list[tuple[int,int]]", "g_hi": "list[tuple[int,int]]"})
+def _match_all_storms(cursor, data_interval, storm_rain_threshold_mm_h, rising_jump_threshold_mm_h):
+    """C03 at statement level: the k-th storm row inserted is (epoch[a], epoch[b-1] + step) for a
+    maximal run [a, b) of rain above the threshold, the k-th rise row (epoch[a'], 'storm',
+    epoch[b'-1]) for a maximal run of increments above threshold x step, and the pairing row joins
+    them; the pairs are those of match_storms (C01: one-to-one, sharing a time step).  C01: no
+    exception.  C20: writes only before the commit."""
+    requires(not db_sealed())
+    requires(storm_rain_threshold_mm_h > 0 and rising_jump_threshold_mm_h > 0)
+    # storms recorded so far belong to other gap-free stretches (label_of = data_interval of an epoch)
+    requires(forall(0, len(db_rows("storm")), lambda k: uf_int("label_of", db_rows("storm")[k][0]) != data_interval))
+    modifies("__db__")
+    ghost(after="epoch, zeta_mm, rainfall_intensity_mm_h = ", let="g_epoch", do=lambda: epoch)
+    ghost(after="epoch, zeta_mm, rainfall_intensity_mm_h = ", let="g_zeta", do=lambda: zeta_mm)
+    ghost(after="epoch, zeta_mm, rainfall_intensity_mm_h = ", let="g_rain", do=lambda: rainfall_intensity_mm_h)
+    ghost(after="time_step_h, = ", let="g_step_h", do=lambda: time_step_h)
+    ghost(before="assert not already_seen", do=lambda: cut(
+        0 <= rain_start and rain_start < len(epoch) and uf_int("label_of", storm_start_epoch) == data_interval
+        and forall(0, i, lambda k: rain_intervals[k][0] != rain_start)))
+    ghost(before="assert not already_seen", do=lambda: cut(forall(0, len(db_rows("storm")), lambda k:
+          db_rows("storm")[k][0] != storm_start_epoch)))
+    ghost(after="rain_intervals, jump_intervals = match_storms(", let="g_ri", do=lambda: rain_intervals)
+    ghost(after="rain_intervals, jump_intervals = match_storms(", let="g_hi", do=lambda: jump_intervals)
+    ensures(not db_sealed())
+    ensures(len(g_ri) == len(g_hi))
+    ensures(forall(0, len(g_ri), lambda q: cand_pair(g_rain > storm_rain_threshold_mm_h, g_zeta,
+                                                      rising_jump_threshold_mm_h * g_step_h, g_ri[q], g_hi[q])))
+    ensures(len(db_rows("storm")) == len(db_rows_before("storm")) + len(g_ri))
+    ensures(forall(0, len(db_rows_before("storm")), lambda k: db_rows("storm")[k] == db_rows_before("storm")[k]))
+    ensures(forall(len(db_rows_before("storm")), len(db_rows("storm")), lambda k:
+            uf_int("label_of", db_rows("storm")[k][0]) == data_interval))
+    ensures(len(db_rows("zeta_interval")) == len(db_rows_before("zeta_interval")) + len(g_ri))
+    ensures(len(db_rows("zeta_interval_storm")) == len(db_rows_before("zeta_interval_storm")) + len(g_ri))
+    ensures(forall(len(db_rows_before("storm")), len(db_rows("storm")), lambda K:
+            db_rows("storm")[K] == (g_epoch[g_ri[K - len(db_rows_before("storm"))][0]],
+                                    g_epoch[g_ri[K - len(db_rows_before("storm"))][1] - 1] + (g_epoch[1] - g_epoch[0]))))
+    ensures(forall(len(db_rows_before("zeta_interval")), len(db_rows("zeta_interval")), lambda K:
+            db_rows("zeta_interval")[K] == (g_epoch[g_hi[K - len(db_rows_before("zeta_interval"))][0]], 1,
+                                            g_epoch[g_hi[K - len(db_rows_before("zeta_interval"))][1] - 1])))
+    ensures(forall(len(db_rows_before("zeta_interval_storm")), len(db_rows("zeta_interval_storm")), lambda K:
+            db_rows("zeta_interval_storm")[K]
+            == (g_epoch[g_hi[K - len(db_rows_before("zeta_interval_storm"))][0]],
+                g_epoch[g_ri[K - len(db_rows_before("zeta_interval_storm"))][0]])))
+    loop(0, inv=lambda it: not db_sealed()
+         and len(db_rows("storm")) == len(db_rows_before("storm")) + it
+         and forall(0, len(db_rows_before("storm")), lambda k: db_rows("storm")[k] == db_rows_before("storm")[k])
+         and len(db_rows("zeta_interval")) == len(db_rows_before("zeta_interval")) + it
+         and len(db_rows("zeta_interval_storm")) == len(db_rows_before("zeta_interval_storm")) + it
+         and forall(len(db_rows_before("storm")), len(db_rows("storm")), lambda K:
+            db_rows("storm")[K] == (epoch[rain_intervals[K - len(db_rows_before("storm"))][0]],
+                                    epoch[rain_intervals[K - len(db_rows_before("storm"))][1] - 1] + (epoch[1] - epoch[0])))
+         and forall(len(db_rows_before("zeta_interval")), len(db_rows("zeta_interval")), lambda K:
+            db_rows("zeta_interval")[K] == (epoch[jump_intervals[K - len(db_rows_before("zeta_interval"))][0]], 1,
+                                            epoch[jump_intervals[K - len(db_rows_before("zeta_interval"))][1] - 1]))
+         and forall(len(db_rows_before("zeta_interval_storm")), len(db_rows("zeta_interval_storm")), lambda K:
+            db_rows("zeta_interval_storm")[K]
+            == (epoch[jump_intervals[K - len(db_rows_before("zeta_interval_storm"))][0]],
+                epoch[rain_intervals[K - len(db_rows_before("zeta_interval_storm"))][0]])))
+
+
+@contract("spowtd.classify:populate_zeta_interval", db=True,
+          args={"cursor": "cursor", "data_interval": "int", "storm_rain_threshold_mm_h": "real",
+                "rising_jump_threshold_mm_h": "real"}, returns="none")
+def _populate_zeta_interval(cursor, data_interval, storm_rain_threshold_mm_h, rising_jump_threshold_mm_h):
+    requires(not db_sealed())
+    requires(storm_rain_threshold_mm_h > 0 and rising_jump_threshold_mm_h > 0)
+    requires(forall(0, len(db_rows("storm")), lambda k: uf_int("label_of", db_rows("storm")[k][0]) != data_interval))
+    modifies("__db__")
+    ensures(not db_sealed())
+    ensures(len(db_rows("storm")) >= len(db_rows_before("storm")))
+    ensures(forall(0, len(db_rows_before("storm")), lambda k: db_rows("storm")[k] == db_rows_before("storm")[k]))
+    ensures(forall(len(db_rows_before("storm")), len(db_rows("storm")), lambda k:
+            uf_int("label_of", db_rows("storm")[k][0]) == data_interval))
+
+
+@contract("spowtd.classify:classify_intervals", db=True,
+          args={"connection": "connection", "storm_rain_threshold_mm_h": "real", "rising_jump_threshold_mm_h": "real"},
+          returns="none")
+def _classify_intervals(connection, storm_rain_threshold_mm_h, rising_jump_threshold_mm_h):
+    """C01 / C20: the step never writes after its commit, commits exactly once at the very end, and
+    raises nothing but the explicit refusal of a dataset without any gridded water-level sample
+    (datasets with one never take that path: bounded stand-in)."""
+    requires(not db_sealed())
+    requires(storm_rain_threshold_mm_h > 0 and rising_jump_threshold_mm_h > 0)
+    # first classification of this dataset: the thresholds singleton makes any later run fail at its
+    # first statement (SQLite PRIMARY KEY, assumed), so no storm has been recorded yet
+    requires(len(db_rows("storm")) == 0)
+    may_raise(ValueError)
+    modifies("__db__")
+    ensures(db_sealed())
+    loop(0, inv=lambda it: not db_sealed() and forall(0, len(db_rows("storm")), lambda k: forall(it, len(data_intervals), lambda j:
+         uf_int("label_of", db_rows("storm")[k][0]) != data_intervals[j])))
